@@ -118,6 +118,9 @@ def map_insert(e, c, a):
 @model(r"^" + MAPT + r"::<.*>::(get|get_mut|contains_key|contains|remove|get_key_value|take)::<")
 def map_get(e, c, a):
     meth = re.search(r">::(\w+)::<", c).group(1)
+    obj = deref_all(e, a[0])
+    if hasattr(obj, "contains_model") and meth in ("contains", "contains_key"):
+        return obj.contains_model(e, deref_all(e, a[1]))
     m = _m(e, a[0])
     i = m.find(e, a[1])
     if meth in ("contains_key", "contains"):
